@@ -75,11 +75,14 @@ func (op *FsTxn) AllocInode(kind nfstypes.Ftype3) *inode.Inode {
 func (op *FsTxn) ReleaseInode(ip *inode.Inode) {
 	util.DPrintf(1, "ReleaseInode %v\n", ip)
 	op.doneInode(ip)
+	verifEv(2, op, uint64(ip.Inum))
 	op.Fs.Lockmap.Release(ip.Inum)
 }
 
 func (op *FsTxn) LockInode(inum common.Inum) *cache.Cslot {
+	verifEv(0, op, uint64(inum))
 	op.Fs.Lockmap.Acquire(inum)
+	verifEv(1, op, uint64(inum))
 	cslot := op.Fs.Icache.LookupSlot(uint64(inum))
 	if cslot == nil {
 		panic("GetInodeLocked")
